@@ -405,14 +405,32 @@ func (t *TriDense) Copy(a Matrix) (r, c int) {
 	switch a := a.(type) {
 	case RawMatrixer:
 		amat := a.RawMatrix()
+		if amat.Stride != t.mat.Stride {
+			// The row order chosen below is only
+			// safe for equal strides.
+			t.checkOverlap(amat)
+		}
+		// Copy the rows from last to first when the source starts
+		// before the receiver so that rows they share are read
+		// before they are overwritten.
+		backward := offset(t.mat.Data[:1], amat.Data[:1]) < 0
 		if t.isUpper() {
 			// Rows at or beyond column c have no element in the
 			// upper triangle of the r×c overlap.
-			for i := 0; i < min(r, c); i++ {
+			n := min(r, c)
+			for k := 0; k < n; k++ {
+				i := k
+				if backward {
+					i = n - 1 - k
+				}
 				copy(t.mat.Data[i*t.mat.Stride+i:i*t.mat.Stride+c], amat.Data[i*amat.Stride+i:i*amat.Stride+c])
 			}
 		} else {
-			for i := 0; i < r; i++ {
+			for k := 0; k < r; k++ {
+				i := k
+				if backward {
+					i = r - 1 - k
+				}
 				n := min(i+1, c)
 				copy(t.mat.Data[i*t.mat.Stride:i*t.mat.Stride+n], amat.Data[i*amat.Stride:i*amat.Stride+n])
 			}
@@ -421,13 +439,27 @@ func (t *TriDense) Copy(a Matrix) (r, c int) {
 		amat := a.RawTriangular()
 		aIsUpper := isUpperUplo(amat.Uplo)
 		tIsUpper := t.isUpper()
+		if amat.Stride != t.mat.Stride || aIsUpper != tIsUpper {
+			// The row order chosen below is only safe for
+			// equal strides and the same triangle.
+			t.checkOverlap(generalFromTriangular(amat))
+		}
+		backward := offset(t.mat.Data[:1], amat.Data[:1]) < 0
 		switch {
 		case tIsUpper && aIsUpper:
-			for i := 0; i < r; i++ {
+			for k := 0; k < r; k++ {
+				i := k
+				if backward {
+					i = r - 1 - k
+				}
 				copy(t.mat.Data[i*t.mat.Stride+i:i*t.mat.Stride+c], amat.Data[i*amat.Stride+i:i*amat.Stride+c])
 			}
 		case !tIsUpper && !aIsUpper:
-			for i := 0; i < r; i++ {
+			for k := 0; k < r; k++ {
+				i := k
+				if backward {
+					i = r - 1 - k
+				}
 				copy(t.mat.Data[i*t.mat.Stride:i*t.mat.Stride+i+1], amat.Data[i*amat.Stride:i*amat.Stride+i+1])
 			}
 		default:
@@ -443,6 +475,10 @@ func (t *TriDense) Copy(a Matrix) (r, c int) {
 			}
 		}
 	default:
+		// The elements are copied one at a time, so a source sharing
+		// memory with the receiver may be read after it was written.
+		aU, _ := untranspose(a)
+		t.checkOverlapMatrix(aU)
 		isUpper := t.isUpper()
 		for i := 0; i < r; i++ {
 			if isUpper {
